@@ -7,7 +7,7 @@ hypothesis `Cap` of Props/C05Sctp2, which is no longer needed). -/
 namespace Aiortc.Sctp.V2
 open Aiortc.Gen Aiortc.Sctp.Wire
 set_option linter.unusedSimpArgs false
-variable {U : List Nat}
+variable {U : List Nat} {B : Nat}
 
 /-- User data bytes a chunk takes from the receive window. -/
 def dataLen : Chunk → Nat
@@ -70,13 +70,35 @@ theorem WF.counts {e : Ep} (h : WF U e) (outs ins : Nat) :
   ⟨⟨h.net.lp, h.net.rp, h.net.rtag, h.net.ltag, h.net.inMax, by have := h.net.outCnt; simp only; omega⟩,
    h.ch, h.tx, h.rx, h.rcReq, h.rcResp, h.sack, h.ids, h.cap, h.tm1, h.tm2, h.tasks, h.rcr⟩
 
+theorem WFx.t1Off {e : Ep} (h : WFx B e) (ch : Option Chunk) : WFx B { e with t1 := false, t1Chunk := ch } :=
+  h.map (fun _ hw => hw.t1Off ch) rfl
+theorem WFx.t2Off {e : Ep} (h : WFx B e) (ch : Option Chunk) : WFx B { e with t2 := false, t2Chunk := ch } :=
+  h.map (fun _ hw => hw.t2Off ch) rfl
+theorem WFx.t1On {e : Ep} (h : WFx B e) {c : Chunk} (hc : c.inRange = true) :
+    WFx B { e with t1Chunk := some c, t1Failures := 0, t1 := true } := h.map (fun _ hw => hw.t1On hc) rfl
+theorem WFx.t2On {e : Ep} (h : WFx B e) {c : Chunk} (hc : c.inRange = true) :
+    WFx B { e with t2Chunk := some c, t2Failures := 0, t2 := true } := h.map (fun _ hw => hw.t2On hc) rfl
+theorem WFx.init {e : Ep} (h : WFx B e) {tag : Nat} (ht : tag < 4294967296) (itsn rwnd : Nat) :
+    WFx B { e with rx := some { last := tsn_minus_one itsn, mis := (e.rx.map (·.mis)).getD [], dups := (e.rx.map (·.dups)).getD [] }
+                   reconfigResponseSeq := tsn_minus_one itsn
+                   remoteTag := tag
+                   hasSsthresh := true
+                   tx := { e.tx with ssthresh := rwnd } } := h.map (fun _ hw => hw.init ht itsn rwnd) rfl
+theorem WFx.counts {e : Ep} (h : WFx B e) (outs ins : Nat) :
+    WFx B { e with inboundCount := min outs e.inboundMax, outboundCount := min e.outboundCount ins } :=
+  h.map (fun _ hw => hw.counts outs ins) rfl
+theorem initAck_inRangeX {e : Ep} (h : WFx B e) (hr : e.rwnd ≤ 1048576) {cookie : Bytes} (hc : cookie.length ≤ 1000) :
+    (Chunk.init .initAck 0 e.localTag e.rwnd.toNat e.outboundCount e.inboundMax e.tx.localTsn.toNat
+      (localExtensions ++ [(SCTP_STATE_COOKIE, cookie)])).inRange = true := by
+  obtain ⟨U, _, hw⟩ := h; exact initAck_inRange hw hr hc
+
 /-- `_receive_chunk`. -/
 theorem wp_receiveChunk {A} {cookie : Bytes} {c : Chunk} {Q : Unit → St → Prop} {e : Ep} {l : List Out}
-    (h' : WF U e)
+    (h' : WFx B e)
     (ha : Acc 0 e.rwnd e.inStreams) (hso : SidOk e.inStreams) (hc : c.Wired) (hck : cookie.length ≤ 1000)
-    (hq : ∀ e' l', WF U e' → Acc 0 e'.rwnd e'.inStreams → SidOk e'.inStreams → Q () (e', l')) :
+    (hq : ∀ e' l', WFx B e' → Acc 0 e'.rwnd e'.inStreams → SidOk e'.inStreams → Q () (e', l')) :
     wp A (receiveChunk cookie c) Q (e, l) := by
-  have h : WF U e := h'
+  have h : WFx B e := h'
   have hdone : ∀ l', Q () (e, l') := fun l' => hq e l' h ha hso
   cases c with
   | data flags tsn sid sseq proto ud =>
@@ -91,8 +113,7 @@ theorem wp_receiveChunk {A} {cookie : Bytes} {c : Chunk} {Q : Unit → St → Pr
     simp only [receiveChunk, wp_bind, wp_getE]
     refine wp_receiveSack h ?_
     intro e' l' hw hf
-    obtain ⟨cs, dcs, q, tx, _, _, _, _, rfl, _⟩ := hf
-    exact hq _ _ hw ha hso
+    exact hq _ _ hw (ha.frame hf.rwnd hf.ins) (hso.frame hf.ins)
   | forwardTsn flags ctsn streams =>
     obtain ⟨ht, hs⟩ := hc
     simp only [receiveChunk, wp_bind, wp_getE]
@@ -104,14 +125,14 @@ theorem wp_receiveChunk {A} {cookie : Bytes} {c : Chunk} {Q : Unit → St → Pr
     simp only [receiveChunk, wp_bind, wp_getE]
     refine wp_t2Cancel ?_; intro ch l1
     rw [wp_setState_other (by decide) (by decide)]
-    have hw1 : WF U { e with t2 := false, t2Chunk := ch, assoc := .shutdownReceived } := by
-      wf_same2 (h.t2Off ch)
-    refine wp_sendChunk hw1 (by decide) ?_
+    have hw1 : WFx B { e with t2 := false, t2Chunk := ch, assoc := .shutdownReceived } := by
+      wfx_same (h.t2Off ch)
+    refine wpx_sendChunk hw1 (by decide) ?_
     intro d
     refine wp_t2Start rfl ?_
     intro l2
     rw [wp_setState_other (by decide) (by decide)]
-    exact hq _ _ (by wf_same2 (hw1.t2On (c := .plain .shutdownAck 0 []) (by decide))) ha hso
+    exact hq _ _ (by wfx_same (hw1.t2On (c := .plain .shutdownAck 0 []) (by decide))) ha hso
   | plain k flags body =>
     cases k with
     | cookieEcho =>
@@ -121,13 +142,13 @@ theorem wp_receiveChunk {A} {cookie : Bytes} {c : Chunk} {Q : Unit → St → Pr
         · simpa using hdone l
         · split
           · simp only [wp_bind]
-            refine wp_sendChunk h ?_ ?_
+            refine wpx_sendChunk h ?_ ?_
             · simp only [Chunk.inRange, paramsInRange, encodeParams_single, List.all_cons, List.all_nil,
                 length_zeros, SCTP_CAUSE_STALE_COOKIE]
               decide
             · intro d; simpa using hdone _
           · simp only [wp_bind]
-            refine wp_sendChunk h (by decide) ?_
+            refine wpx_sendChunk h (by decide) ?_
             intro d
             refine wp_setState_established h ?_
             intro e' l' hw hr hi
@@ -159,7 +180,7 @@ theorem wp_receiveChunk {A} {cookie : Bytes} {c : Chunk} {Q : Unit → St → Pr
     cases k with
     | heartbeat =>
       simp only [receiveChunk, wp_bind, wp_getE]
-      refine wp_sendChunk h ?_ ?_
+      refine wpx_sendChunk h ?_ ?_
       · simp only [Chunk.inRange, hpr, Bool.and_true, Bool.and_eq_true, decide_eq_true_eq]
         omega
       · intro d; exact hdone _
@@ -185,7 +206,7 @@ theorem wp_receiveChunk {A} {cookie : Bytes} {c : Chunk} {Q : Unit → St → Pr
       split
       · rename_i hest
         rw [wp_bind]
-        refine wp_forIn A ps _ _ (fun suf s' => WF U s'.1 ∧ Acc 0 s'.1.rwnd s'.1.inStreams ∧
+        refine wp_forIn A ps _ _ (fun suf s' => WFx B s'.1 ∧ Acc 0 s'.1.rwnd s'.1.inStreams ∧
           SidOk s'.1.inStreams ∧ s'.1.assoc = .established ∧ ∀ p ∈ suf, IsBytes p.2) _
           ⟨h, ha, hso, hest, hpb⟩ ?_ ?_
         · intro ⟨t, v⟩ rest ⟨e1, l1⟩ ⟨hw, hacc, hsok, hest1, hbytes⟩
@@ -223,16 +244,16 @@ theorem wp_receiveChunk {A} {cookie : Bytes} {c : Chunk} {Q : Unit → St → Pr
         refine wp_getExtensions ?_
         intro pr ext l1
         simp only [wp_modE, wp_getE]
-        have hw2 := (show WF U _ from by wf_same2 hw1 :
-          WF U { e with rx := some { last := tsn_minus_one itsn, mis := (e.rx.map (·.mis)).getD [], dups := (e.rx.map (·.dups)).getD [] }
-                        reconfigResponseSeq := tsn_minus_one itsn
-                        remoteTag := tag
-                        hasSsthresh := true
-                        tx := { e.tx with ssthresh := rwnd }
-                        remotePR := pr, remoteExt := ext }).counts outs ins
-        refine wp_sendChunk (by wf_same2 hw2) (initAck_inRange hw2 hrw hck) ?_
+        have hw2 := (show WFx B _ from by wfx_same hw1 :
+          WFx B { e with rx := some { last := tsn_minus_one itsn, mis := (e.rx.map (·.mis)).getD [], dups := (e.rx.map (·.dups)).getD [] }
+                         reconfigResponseSeq := tsn_minus_one itsn
+                         remoteTag := tag
+                         hasSsthresh := true
+                         tx := { e.tx with ssthresh := rwnd }
+                         remotePR := pr, remoteExt := ext }).counts outs ins
+        refine wpx_sendChunk (by wfx_same hw2) (initAck_inRangeX hw2 hrw hck) ?_
         intro d
-        exact hq _ _ (by wf_same2 hw2) ha hso
+        exact hq _ _ (by wfx_same hw2) ha hso
       · simpa using hdone l
     | initAck =>
       simp only [receiveChunk, wp_bind, wp_getE]
@@ -244,14 +265,14 @@ theorem wp_receiveChunk {A} {cookie : Bytes} {c : Chunk} {Q : Unit → St → Pr
         refine wp_getExtensions ?_
         intro pr ext l2
         simp only [wp_modE]
-        have hw2 := (show WF U _ from by wf_same2 hw1 :
-          WF U { e with t1 := false, t1Chunk := ch
-                        rx := some { last := tsn_minus_one itsn, mis := (e.rx.map (·.mis)).getD [], dups := (e.rx.map (·.dups)).getD [] }
-                        reconfigResponseSeq := tsn_minus_one itsn
-                        remoteTag := tag
-                        hasSsthresh := true
-                        tx := { e.tx with ssthresh := rwnd }
-                        remotePR := pr, remoteExt := ext }).counts outs ins
+        have hw2 := (show WFx B _ from by wfx_same hw1 :
+          WFx B { e with t1 := false, t1Chunk := ch
+                         rx := some { last := tsn_minus_one itsn, mis := (e.rx.map (·.mis)).getD [], dups := (e.rx.map (·.dups)).getD [] }
+                         reconfigResponseSeq := tsn_minus_one itsn
+                         remoteTag := tag
+                         hasSsthresh := true
+                         tx := { e.tx with ssthresh := rwnd }
+                         remotePR := pr, remoteExt := ext }).counts outs ins
         have hecho : (Chunk.plain .cookieEcho 0
             (((ps.find? fun p => p.1 == SCTP_STATE_COOKIE).map (·.2)).getD [])).inRange = true := by
           have hb : (((ps.find? fun p => p.1 == SCTP_STATE_COOKIE).map (·.2)).getD []).length + 4 < 65536 := by
@@ -259,21 +280,21 @@ theorem wp_receiveChunk {A} {cookie : Bytes} {c : Chunk} {Q : Unit → St → Pr
             | none => simp
             | some p => simpa using (paramsInRange_mem hpr (List.mem_of_find?_eq_some hf)).2
           simpa [Chunk.inRange] using hb
-        refine wp_sendChunk hw2 hecho ?_
+        refine wpx_sendChunk hw2 hecho ?_
         · intro d
           refine wp_t1Start rfl ?_
           intro l3
           rw [wp_setState_other (by decide) (by decide)]
-          exact hq _ _ (by wf_same2 (hw2.t1On hecho)) ha hso
+          exact hq _ _ (by wfx_same (hw2.t1On hecho)) ha hso
       · simpa using hdone l
 
 /-- `_handle_data(data)` for a datagram of bytes. -/
 theorem wp_handleData {A} {data cookie : Bytes} {Q : Unit → St → Prop} {e : Ep} {l : List Out}
-    (h' : WF U e)
+    (h' : WFx B e)
     (ha : Acc 0 e.rwnd e.inStreams) (hso : SidOk e.inStreams) (hd : IsBytes data) (hck : cookie.length ≤ 1000)
-    (hq : ∀ e' l', WF U e' → Acc 0 e'.rwnd e'.inStreams → SidOk e'.inStreams → Q () (e', l')) :
+    (hq : ∀ e' l', WFx B e' → Acc 0 e'.rwnd e'.inStreams → SidOk e'.inStreams → Q () (e', l')) :
     wp A (handleData data cookie) Q (e, l) := by
-  have h : WF U e := h'
+  have h : WFx B e := h'
   have hdone : ∀ l', Q () (e, l') := fun l' => hq e l' h ha hso
   have hben := parsePacket_benign data
   unfold handleData
@@ -291,18 +312,18 @@ theorem wp_handleData {A} {data cookie : Bytes} {Q : Unit → St → Prop} {e : 
       refine ⟨fun _ => ?_, fun _ => ?_⟩
       · simpa using hdone l
       · simp only [wp_bind, wp_pure]
-        refine wp_forIn A chunks _ _ (fun suf s' => WF U s'.1 ∧
+        refine wp_forIn A chunks _ _ (fun suf s' => WFx B s'.1 ∧
           Acc 0 s'.1.rwnd s'.1.inStreams ∧
           SidOk s'.1.inStreams ∧ ∀ c ∈ suf, c.Wired) _ ⟨h', ha, hso, hwired⟩ ?_ ?_
         · intro c rest ⟨e1, l1⟩ ⟨hw, hacc, hsok, hwi⟩
           simp only [wp_bind]
-          have hw0 : WF U e1 := hw
+          have hw0 : WFx B e1 := hw
           refine wp_receiveChunk hw0 hacc hsok (hwi c (by simp)) hck ?_
           intro e' l' hw' ha' hs'
           simp only [wp_pure, true_and]
           exact ⟨hw', ha', hs', fun x hx => hwi x (by simp [hx])⟩
         · intro ⟨e1, l1⟩ ⟨hw0, hacc, hsok, _⟩
-          have hw : WF U e1 := hw0
+          have hw : WFx B e1 := hw0
           simp only [wp_getE]
           split
           · rename_i hsn
